@@ -365,6 +365,32 @@ fn spawn_async_ao_list_in_task'''),
         }
 ''', ''),
     ],
+    'U11': [
+        ('empty-fields-kept-on-ifs-run', 'brush-core/src/expansion.rs', '''                            if ifs.contains(c) {
+                                if !current_field.0.is_empty() {
+                                    fields.push(std::mem::take(&mut current_field));
+                                }''', '''                            if ifs.contains(c) {
+                                {
+                                    fields.push(std::mem::take(&mut current_field));
+                                }'''),
+        ('char-glued-onto-quoted-piece', 'brush-core/src/expansion.rs', '''                                    Some(ExpansionPiece::Splittable(last)) => last.push(c),
+                                    Some(ExpansionPiece::Unsplittable(_)) | None => {''', '''                                    Some(ExpansionPiece::Splittable(last) | ExpansionPiece::Unsplittable(last)) => last.push(c),
+                                    None => {'''),
+        ('field-boundary-not-flushed', 'brush-core/src/expansion.rs', '''            if !current_field.0.is_empty() {
+                fields.push(std::mem::take(&mut current_field));
+            }
+        }
+
+        fields''', '''        }
+
+        if !current_field.0.is_empty() {
+            fields.push(std::mem::take(&mut current_field));
+        }
+
+        fields'''),
+        ('ifs-test-inverted', 'brush-core/src/expansion.rs', 'if ifs.contains(c) {', 'if !ifs.contains(c) {'),
+        ('quoted-piece-starts-new-field', 'brush-core/src/expansion.rs', 'ExpansionPiece::Unsplittable(_) => current_field.0.push(piece),', 'ExpansionPiece::Unsplittable(_) => fields.push(WordField(vec![piece])),'),
+    ],
     'U15': [
         ('close-removes-entry', 'brush-core/src/openfiles.rs', 'self.files.insert(fd, None).and_then(|f| f)', 'self.files.remove(&fd).and_then(|f| f)'),
         ('add-starts-at-stderr', 'brush-core/src/openfiles.rs', 'const FIRST_NON_STDIO_FD: ShellFd = 3;', 'const FIRST_NON_STDIO_FD: ShellFd = 2;'),
